@@ -1,12 +1,587 @@
-//! C07 — not built yet (stub; see DESIGN.md §5).
-use crate::ctx::Tier;
-use serde_json::Value;
+//! C07 — all dispatch paths and route shapes give the same answer for the same
+//! request.
+//!
+//! Everything is driven through `Router::get(path)` and the returned handler's
+//! `handle` / `handle_with_ctx` / `handle_view`; no sockets. Three sub-spaces,
+//! each enumerated completely within its bound (see DESIGN.md §5 C07):
+//!
+//! * **A1** (`c07_a1.rs`) owned vs borrowed vs middleware: every built-in handler
+//!   kind x body-format code x body bytes x forwarding-middleware configuration;
+//!   the request is handled through `handle`, `handle_with_ctx` and `handle_view`
+//!   (the frame placed at offsets 0..7 of an 8-aligned backing store). Oracle:
+//!   the responses are equal after the documented echo rule and after the
+//!   documented `Err(RepeError)` -> error-response mapping of the dispatch
+//!   layer; every forwarding middleware ran exactly once, in registration order.
+//! * **A2** (`c07_a2.rs`) routing: all 120 registration orders of {exact route,
+//!   registry mount, struct mount, middleware 1, middleware 2} x mount prefixes x
+//!   exact paths x request paths, against a reference router.
+//! * **A3** (`c07_a3.rs`) struct segments: a recording `RepeStruct` (mounted at
+//!   the root, under a prefix, and nested in a `#[derive(RepeStruct)]` type)
+//!   against an independent RFC 6901 tokenizer for depths 0..40.
 
-pub fn run(_tier: Tier) -> ! {
-    eprintln!("MACHINERY-ERROR property=C07 check not built yet");
-    std::process::exit(2)
+use crate::ctx::{Ctx, Samples, Tier};
+use crate::frames::{Frame, HEADER, Hdr};
+use repe::server::{HandlerErased, Middleware, Next};
+use repe::{CallContext, Message, MessageView, RepeError};
+use serde_json::{Value, json};
+use std::cell::Cell;
+use std::collections::BTreeMap;
+use std::sync::{Arc, Mutex};
+
+#[path = "c07_a1.rs"]
+mod a1;
+#[path = "c07_a2.rs"]
+mod a2;
+#[path = "c07_a3.rs"]
+mod a3;
+
+// ---------------------------------------------------------------------------
+// shared machinery
+// ---------------------------------------------------------------------------
+
+/// One oracle failure (collected by the sweeps and by `replay`).
+pub(crate) struct Viol {
+    pub key: String,
+    pub what: String,
+    pub case: Value,
 }
 
-pub fn replay(_case: &Value) -> Result<(), String> {
-    Err("no replay for C07 yet".into())
+/// A response in canonical framed form: what a server would put on the wire
+/// for this handler result. `Ok(m)` is framed with the echo rule (an empty
+/// response query stands for the request query, a query the handler set is
+/// kept); `Err(e)` is framed the way `server_request::dispatch{,_view}` map it:
+/// error code `e.to_error_code()`, UTF-8 body `e.to_string()`, request id and
+/// request query. Lengths are recomputed by the independent frame oracle.
+#[derive(Clone, PartialEq, Eq, Debug)]
+pub(crate) struct Resp {
+    pub wire: Vec<u8>,
+    /// informational only (not part of equality of responses): the handler
+    /// returned `Err` and the dispatch layer built the error frame.
+    pub via_err: bool,
+}
+
+impl Resp {
+    pub fn hdr(&self) -> Hdr {
+        Hdr::decode_raw(&self.wire).expect("canonical frame has a header")
+    }
+    pub fn query(&self) -> &[u8] {
+        let q = self.hdr().query_length as usize;
+        &self.wire[HEADER..HEADER + q]
+    }
+    pub fn body(&self) -> &[u8] {
+        let q = self.hdr().query_length as usize;
+        &self.wire[HEADER + q..]
+    }
+    pub fn class(&self) -> String {
+        let ec = self.hdr().ec;
+        if ec == 0 { "ok".to_string() } else { format!("ec={ec}") }
+    }
+    /// Name of the first field in which two canonical responses differ.
+    pub fn first_difference(&self, other: &Resp) -> &'static str {
+        let (a, b) = (self.hdr(), other.hdr());
+        if a.ec != b.ec {
+            "ec"
+        } else if a.id != b.id {
+            "id"
+        } else if a.body_format != b.body_format {
+            "body_format"
+        } else if a.query_format != b.query_format {
+            "query_format"
+        } else if self.query() != other.query() {
+            "query"
+        } else if self.body() != other.body() {
+            "body"
+        } else if a.notify != b.notify || a.version != b.version || a.reserved != b.reserved {
+            "header"
+        } else {
+            "none"
+        }
+    }
+    pub fn describe(&self) -> String {
+        let h = self.hdr();
+        format!(
+            "(ec={} id={:#x} qf={} bf={} query={:?} body={})",
+            h.ec,
+            h.id,
+            h.query_format,
+            h.body_format,
+            String::from_utf8_lossy(self.query()),
+            show_bytes(self.body(), 80)
+        )
+    }
+}
+
+pub(crate) fn show_bytes(b: &[u8], max: usize) -> String {
+    let cut = &b[..b.len().min(max)];
+    let s = match std::str::from_utf8(cut) {
+        Ok(s) if s.chars().all(|c| !c.is_control()) => format!("{s:?}"),
+        _ => format!("0x{}", hex(cut)),
+    };
+    if b.len() > max { format!("{s}..(+{})", b.len() - max) } else { s }
+}
+
+pub(crate) fn hex(b: &[u8]) -> String {
+    b.iter().map(|x| format!("{x:02x}")).collect()
+}
+
+pub(crate) fn unhex(s: &str) -> Result<Vec<u8>, String> {
+    if s.len() % 2 != 0 {
+        return Err("odd hex".into());
+    }
+    (0..s.len() / 2)
+        .map(|i| u8::from_str_radix(&s[2 * i..2 * i + 2], 16).map_err(|e| e.to_string()))
+        .collect()
+}
+
+pub(crate) fn normalise(req: &Message, r: Result<Message, RepeError>) -> Resp {
+    match r {
+        Ok(m) => {
+            let q: &[u8] = if m.query.is_empty() { &req.query } else { &m.query };
+            let h = Hdr {
+                version: m.header.version,
+                notify: m.header.notify,
+                reserved: m.header.reserved,
+                id: m.header.id,
+                query_format: m.header.query_format,
+                body_format: m.header.body_format,
+                ec: m.header.ec,
+                ..Default::default()
+            };
+            Resp { wire: Frame::new(h, q, &m.body).to_bytes(), via_err: false }
+        }
+        Err(e) => {
+            let h = Hdr {
+                version: 1,
+                id: req.header.id,
+                query_format: 0,
+                body_format: 3,
+                ec: u32::from(e.to_error_code()),
+                ..Default::default()
+            };
+            Resp { wire: Frame::new(h, &req.query, e.to_string().as_bytes()).to_bytes(), via_err: true }
+        }
+    }
+}
+
+thread_local! {
+    /// address range of the backing store the current `handle_view` call borrows from
+    pub(crate) static BACKING_RANGE: Cell<(usize, usize)> = const { Cell::new((0, 0)) };
+    /// number of times a slice handler saw its input inside BACKING_RANGE (zero-copy borrow)
+    pub(crate) static BORROWED_INPUTS: Cell<u64> = const { Cell::new(0) };
+}
+
+/// 8-aligned backing store; a frame can be placed at byte offsets 0..7 of it.
+pub(crate) struct Backing {
+    words: Vec<u64>,
+}
+
+impl Backing {
+    pub fn new() -> Self {
+        Backing { words: Vec::new() }
+    }
+    pub fn place(&mut self, off: usize, wire: &[u8]) -> &[u8] {
+        let need = (off + wire.len()) / 8 + 2;
+        if self.words.len() < need {
+            self.words.resize(need, 0);
+        }
+        // SAFETY: `words` is an initialised, 8-aligned allocation of `len*8` bytes.
+        let bytes = unsafe {
+            std::slice::from_raw_parts_mut(self.words.as_mut_ptr() as *mut u8, self.words.len() * 8)
+        };
+        debug_assert_eq!(bytes.as_ptr() as usize % 8, 0);
+        bytes[off..off + wire.len()].copy_from_slice(wire);
+        &bytes[off..off + wire.len()]
+    }
+}
+
+#[derive(Clone, Copy, Debug, PartialEq, Eq)]
+pub(crate) enum Via {
+    Handle,
+    Ctx,
+    View(usize),
+}
+
+impl Via {
+    pub fn family(self) -> &'static str {
+        match self {
+            Via::Handle => "handle",
+            Via::Ctx => "handle_with_ctx",
+            Via::View(_) => "handle_view",
+        }
+    }
+    pub fn name(self) -> String {
+        match self {
+            Via::View(k) => format!("handle_view@+{k}"),
+            v => v.family().to_string(),
+        }
+    }
+}
+
+/// Run one dispatch of `req` (whose wire form is `wire`) through `h`.
+/// Err(..) = the code under test panicked.
+pub(crate) fn invoke(
+    h: &dyn HandlerErased,
+    req: &Message,
+    wire: &[u8],
+    backing: &mut Backing,
+    via: Via,
+) -> Result<Resp, String> {
+    let path = std::str::from_utf8(&req.query).unwrap_or("");
+    let r = std::panic::catch_unwind(std::panic::AssertUnwindSafe(|| match via {
+        Via::Handle => h.handle(req),
+        Via::Ctx => h.handle_with_ctx(req, &CallContext::detached(path)),
+        Via::View(off) => {
+            let buf = backing.place(off, wire);
+            let lo = buf.as_ptr() as usize;
+            BACKING_RANGE.with(|c| c.set((lo, lo + buf.len())));
+            let out = match MessageView::from_slice(buf) {
+                Ok(view) => h.handle_view(&view, &CallContext::detached(path)),
+                Err(e) => panic!("C07 harness: MessageView::from_slice rejected a well-formed frame: {e}"),
+            };
+            BACKING_RANGE.with(|c| c.set((0, 0)));
+            out
+        }
+    }));
+    match r {
+        Ok(r) => Ok(normalise(req, r)),
+        Err(p) => {
+            BACKING_RANGE.with(|c| c.set((0, 0)));
+            let msg = p
+                .downcast_ref::<String>()
+                .cloned()
+                .or_else(|| p.downcast_ref::<&str>().map(|s| s.to_string()))
+                .unwrap_or_else(|| "non-string panic".into());
+            Err(msg)
+        }
+    }
+}
+
+pub(crate) fn request(id: u64, path: &str, body: &[u8], body_format: u16) -> Result<(Message, Vec<u8>), String> {
+    let wire = Frame::request(id, path, body, body_format, false).to_bytes();
+    let req = Message::from_slice(&wire).map_err(|e| format!("Message::from_slice rejected a well-formed request frame: {e}"))?;
+    Ok((req, wire))
+}
+
+/// A forwarding middleware that logs its id, then continues the chain.
+pub(crate) struct Fwd {
+    pub id: u8,
+    pub log: Arc<Mutex<Vec<u8>>>,
+}
+
+impl Middleware for Fwd {
+    fn handle(&self, req: &Message, next: Next<'_>) -> Result<Message, RepeError> {
+        self.log.lock().unwrap().push(self.id);
+        next.run(req)
+    }
+}
+
+/// Independent RFC 6901 tokenizer: "" -> no tokens; otherwise the pointer must
+/// start with '/', is split on '/', and each token is unescaped by one
+/// left-to-right scan (`~0` -> '~', `~1` -> '/'). None = not a JSON pointer or a
+/// malformed escape (outside the property's quantifier).
+pub(crate) fn rfc6901(ptr: &str) -> Option<Vec<String>> {
+    if ptr.is_empty() {
+        return Some(Vec::new());
+    }
+    let rest = ptr.strip_prefix('/')?;
+    let mut out = Vec::new();
+    for raw in rest.split('/') {
+        let mut tok = String::new();
+        let mut it = raw.chars();
+        while let Some(c) = it.next() {
+            if c == '~' {
+                match it.next() {
+                    Some('0') => tok.push('~'),
+                    Some('1') => tok.push('/'),
+                    _ => return None,
+                }
+            } else {
+                tok.push(c);
+            }
+        }
+        out.push(tok);
+    }
+    Some(out)
+}
+
+#[derive(Default)]
+pub(crate) struct Counters(pub BTreeMap<String, u64>);
+
+impl Counters {
+    pub fn add(&mut self, k: &str, n: u64) {
+        if let Some(v) = self.0.get_mut(k) {
+            *v += n;
+        } else {
+            self.0.insert(k.to_string(), n);
+        }
+    }
+    pub fn get(&self, k: &str) -> u64 {
+        self.0.get(k).copied().unwrap_or(0)
+    }
+    pub fn merge(&mut self, o: &Counters) {
+        for (k, v) in &o.0 {
+            self.add(k, *v);
+        }
+    }
+    pub fn json(&self) -> Value {
+        json!(self.0)
+    }
+    pub fn with_prefix(&self, p: &str) -> Value {
+        let m: BTreeMap<&str, u64> = self.0.iter().filter_map(|(k, v)| k.strip_prefix(p).map(|r| (r, *v))).collect();
+        json!(m)
+    }
+}
+
+/// Totals of one sub-space.
+#[derive(Default)]
+pub(crate) struct Totals {
+    pub states: u64,
+    pub transitions: u64,
+    pub c: Counters,
+    /// per violation key, the failing case with the smallest enumeration index
+    /// (deterministic whatever the partition of the space over workers)
+    pub viols: BTreeMap<String, (u64, Viol)>,
+    /// enumeration index of the case being executed (set by the sweeps)
+    pub order: u64,
+    pub machinery: Option<String>,
+    /// evidence samples, offered only at fixed positions of the enumeration so
+    /// that the evidence file is identical on every run
+    pub samples: Vec<Value>,
+    /// size of the bounded space as computed from the alphabet sizes (set by `sweep`)
+    pub expected_states: u64,
+}
+
+impl Totals {
+    pub fn merge(&mut self, mut o: Totals) {
+        self.states += o.states;
+        self.transitions += o.transitions;
+        self.c.merge(&o.c);
+        for (k, (ord, v)) in std::mem::take(&mut o.viols) {
+            match self.viols.get(&k) {
+                Some((have, _)) if *have <= ord => {}
+                _ => {
+                    self.viols.insert(k, (ord, v));
+                }
+            }
+        }
+        if self.machinery.is_none() {
+            self.machinery = o.machinery;
+        }
+        self.samples.append(&mut o.samples);
+    }
+    pub fn fail(&mut self, key: String, what: String, case: Value) {
+        self.c.add("violations", 1);
+        match self.viols.get(&key) {
+            Some((have, _)) if *have <= self.order => {}
+            _ => {
+                let ord = self.order;
+                self.viols.insert(key.clone(), (ord, Viol { key, what, case }));
+            }
+        }
+    }
+}
+
+fn report(ctx: &Ctx, t: &mut Totals) {
+    // deterministic: by key; per key the case with the smallest enumeration index
+    for (_, (_, v)) in std::mem::take(&mut t.viols) {
+        // re-execute the recorded case twice outside the sweep (fresh routers). The
+        // code under test is sequential and deterministic, so the only legitimate
+        // reason for a case not to reproduce is handler state accumulated earlier in
+        // the sweep (registry / struct writes); say so rather than hide the failure.
+        let again = [replay_inner(&v.case), replay_inner(&v.case)];
+        if again.iter().any(|r| r.is_ok()) {
+            ctx.note(format!(
+                "violation {} was observed in the sweep but does not reproduce from its recorded case on a fresh router (state-dependent): {}",
+                v.key, v.what
+            ));
+        }
+        ctx.violation(v.key, v.what, v.case);
+    }
+}
+
+pub fn run(tier: Tier) -> ! {
+    let ctx = Ctx::new("C07", tier);
+    let samples = Samples::new(12);
+    let hook = std::panic::take_hook();
+    std::panic::set_hook(Box::new(|_| {}));
+    let t0 = std::time::Instant::now();
+    let mut r1 = a1::sweep(tier);
+    let t1 = t0.elapsed().as_secs_f64();
+    let mut r2 = a2::sweep(tier);
+    let t2 = t0.elapsed().as_secs_f64();
+    let mut r3 = a3::sweep(tier);
+    let t3 = t0.elapsed().as_secs_f64();
+
+    for (name, r) in [("A1", &r1), ("A2", &r2), ("A3", &r3)] {
+        if let Some(m) = &r.machinery {
+            ctx.machinery(format!("{name}: {m}"));
+        }
+    }
+    report(&ctx, &mut r1);
+    report(&ctx, &mut r2);
+    report(&ctx, &mut r3);
+    std::panic::set_hook(hook);
+    for r in [&mut r1, &mut r2, &mut r3] {
+        r.samples.sort_by_key(|v| v.to_string());
+        for v in r.samples.drain(..).take(4) {
+            samples.offer(|| v);
+        }
+    }
+
+    // ---- non-vacuity (asserted only when nothing failed) -------------------
+    if !ctx.has_violation() {
+        let mut missing = Vec::new();
+        for k in a1::KINDS {
+            if r1.c.get(&format!("kind:{}", k.name())) == 0 {
+                missing.push(format!("A1 kind {} never exercised", k.name()));
+            }
+        }
+        for k in [
+            "class:ok",
+            "class:ec=4",
+            "class:ec=5",
+            "class:ec=6",
+            "class:ec=4096",
+            "results_returned_as_Err",
+            "leaf_invoked_behind_forwarding_middleware",
+            "requests_behind_2_middlewares",
+            "route_registered_before_middleware",
+            "route_registered_after_middleware",
+            "slice_input_borrowed_zero_copy",
+            "responses_with_handler_set_query",
+            "format_accepted_on_all_paths",
+            "format_rejected_on_all_paths",
+        ] {
+            if r1.c.get(k) == 0 {
+                missing.push(format!("A1 counter {k} is zero"));
+            }
+        }
+        for k in [
+            "outcome:exact",
+            "outcome:registry",
+            "outcome:struct",
+            "outcome:none",
+            "exact_won_over_matching_mount",
+            "path_shares_string_prefix_without_boundary_not_routed",
+            "path_equal_to_prefix_routed",
+            "both_mounts_matched_precedence_unchecked",
+            "mount_registered_before_middleware_and_wrapped",
+            "mount_registered_after_middleware_and_wrapped",
+            "trailing_slash_prefix_disambiguated",
+        ] {
+            if r2.c.get(k) == 0 {
+                missing.push(format!("A2 counter {k} is zero"));
+            }
+        }
+        for k in [
+            "depth=0",
+            "depth=16",
+            "depth=17",
+            "depth=40",
+            "spilled_to_heap_escape_free",
+            "stayed_on_stack_escape_free",
+            "escaped_path_deeper_than_16",
+            "escaped_path_not_deeper_than_16",
+            "single_empty_token_path",
+            "via_derive_nested",
+        ] {
+            if r3.c.get(k) == 0 {
+                missing.push(format!("A3 counter {k} is zero"));
+            }
+        }
+        if !missing.is_empty() {
+            ctx.machinery(format!("vacuous exploration: {}", missing.join("; ")));
+        }
+    }
+
+    // every state of the bounded space was executed (sizes computed independently
+    // from the alphabets); anything else is a harness defect unless a failure
+    // cut a case short
+    let exhaustive = r1.states == r1.expected_states && r2.states == r2.expected_states && r3.states == r3.expected_states;
+    if !exhaustive && !ctx.has_violation() {
+        ctx.machinery(format!(
+            "enumeration incomplete: A1 {}/{} A2 {}/{} A3 {}/{}",
+            r1.states, r1.expected_states, r2.states, r2.expected_states, r3.states, r3.expected_states
+        ));
+    }
+    let lit = r2.c.get("trailing_slash_prefix:struct:behaves-as-literal");
+    let trim = r2.c.get("trailing_slash_prefix:registry:behaves-as-trimmed");
+    if lit > 0 && trim > 0 {
+        ctx.note(format!(
+            "mount prefixes with a trailing '/' are normalised differently by the two mount kinds: the registry mount behaved as if the '/' were trimmed in {trim} configurations (\"/a/\" receives /a, /a/, /a/b), the struct mount took it literally in {lit} configurations (\"/a/\" receives only /a/ and /a//...; /a/b is not routed to it). The property does not specify this; both are accepted"
+        ));
+    }
+    let states = r1.states + r2.states + r3.states;
+    let transitions = r1.transitions + r2.transitions + r3.transitions;
+    let coverage = json!({
+        "states": states,
+        "transitions": transitions,
+        "traces_validated_against_impl": transitions,
+        "samples": samples.take(),
+        "exhaustive": exhaustive,
+        "rule": "A1: every (handler kind, query of that kind, middleware configuration, body-format code, body) is dispatched through handle, handle_with_ctx and handle_view at buffer offsets 0..7 and the canonical framed responses are compared; A2: every (registration order, registry prefix, struct prefix, exact path) router is asked for every request path and compared with a reference router; A3: every remaining path of the bound is sent to a recording RepeStruct under three mounts and compared with an independent RFC 6901 tokenizer. states = distinct (configuration, request) pairs; transitions = handler invocations (or Router::get lookups answering None) compared with the oracle",
+        "bound": {
+            "A1": a1::bound(&r1),
+            "A2": a2::bound(tier),
+            "A3": a3::bound(tier, &r3),
+        },
+        "alphabet": {
+            "body_formats": a1::FORMATS,
+            "handler_kinds": a1::KINDS.iter().map(|k| k.name()).collect::<Vec<_>>(),
+            "middleware_configurations": a1::MWCFG_NAMES,
+            "tokens": a3::TOKENS,
+        },
+        "per_subspace": {
+            "A1": {"states": r1.states, "transitions": r1.transitions, "wall_s": t1},
+            "A2": {"states": r2.states, "transitions": r2.transitions, "wall_s": t2 - t1},
+            "A3": {"states": r3.states, "transitions": r3.transitions, "wall_s": t3 - t2},
+        },
+        "nonvacuity": {
+            "A1_requests_per_handler_kind": r1.c.with_prefix("kind:"),
+            "A1_base_responses_per_class": r1.c.with_prefix("class:"),
+            "A1": r1.c.json(),
+            "A2": r2.c.json(),
+            "A3": r3.c.json(),
+        },
+    });
+    ctx.finish(
+        "model_checking",
+        coverage,
+        &[
+            "a handler result Err(e) is compared as the error frame the dispatch layer builds from it (code e.to_error_code(), UTF-8 body e.to_string(), request id and query), as server_request::dispatch / dispatch_view do",
+            "all middleware are forwarding (call next.run(req) once with the unchanged request); short-circuiting middleware is outside the statement",
+            "request paths are JSON pointers (empty or starting with '/'); paths without a leading '/' are not enumerated",
+            "a mount prefix with a trailing '/' may be taken literally or with the '/' trimmed (the statement does not say which); the mount must behave consistently as one of the two over all request paths",
+            "precedence between a registry mount and a struct mount that both match is not checked",
+            "malformed '~' escapes are outside the quantifier and not generated",
+            "Registry semantics of the handed-down pointer are C14's; here the mounted answer is compared with Registry::dispatch of (path minus prefix) on an identical registry",
+        ],
+    )
+}
+
+pub fn replay(case: &Value) -> Result<(), String> {
+    let hook = std::panic::take_hook();
+    std::panic::set_hook(Box::new(|_| {}));
+    let r = replay_inner(case);
+    std::panic::set_hook(hook);
+    r
+}
+
+fn replay_inner(case: &Value) -> Result<(), String> {
+    let mut t = Totals::default();
+    let r = match case["space"].as_str() {
+        Some("A1") => a1::replay(case, &mut t),
+        Some("A2") => a2::replay(case, &mut t),
+        Some("A3") => a3::replay(case, &mut t),
+        _ => Err("case has no known `space`".to_string()),
+    };
+    r?;
+    if let Some(m) = t.machinery {
+        return Err(format!("machinery: {m}"));
+    }
+    if t.viols.is_empty() {
+        Ok(())
+    } else {
+        Err(t.viols.values().map(|(_, v)| format!("{}: {}", v.key, v.what)).collect::<Vec<_>>().join("\n"))
+    }
 }
